@@ -85,6 +85,10 @@ def variants(tier, half):
         out.append(((("__activate__",), ("a",)), False))
         out.append(((("__activate__",), ("a",), ("b",)), False))
     if half == "threads":
+        # the first sender's event fails in its `on` callback (C04 meets C06): the exception
+        # reaches exactly the caller that was processing it, and the other sender's event is
+        # processed normally or dropped with the queue - never stranded, never run twice
+        out.append(((("a",), ("b",)), "fault"))
         # the second sender first attaches a listener whose only callback is a coroutine
         # function (never awaited on the sync engine - C05's known finding - and irrelevant
         # here): attaching must not disturb the mutual exclusion of the events
@@ -118,6 +122,62 @@ def check_results(env, calls, idents):
             return (f"O8 result: the call sending {c['tag']} processed {first} first (then "
                     f"{[t for t in dict.fromkeys(r.tag for r in mine)][1:]}) but returned {res!r}")
     return None
+
+
+FAULT_K = 1
+
+
+def fault_plan(built):
+    ti = next(i for i, t in enumerate(built.m.trans)
+              if (t.src, t.dst, t.events) == ("s0", "s1", ("a",)))
+    return {(("sm", "on_transition"), "S0.0", ti): FAULT_K}
+
+
+def check_fault(env, sm, calls, errors, deadlock, idents):
+    """Senders ((a,), (b,)); a's `on` callback raises.  `b` is a self-loop on s0."""
+    from ..env import make_boom
+    if deadlock:
+        return deadlock
+    recs = [r for r in env.flat if r.event != "__initial__"]
+    fa = [r for r in recs if r.tag == "S0.0"]
+    fb = [r for r in recs if r.tag == "S1.0"]
+    names_a = [r.cid[1] for r in fa]
+    if names_a != ["before_transition", "on_exit_state", "on_transition"]:
+        return f"F1 the failing event ran {names_a}"
+    by = {v: k for k, v in idents.items()}.get(fa[0].thread)
+    want = make_boom(FAULT_K)
+    if len(errors) != 1 or errors[0][0] != by or type(errors[0][1]) is not type(want) or \
+            errors[0][1].args != want.args:
+        return (f"F2 the exception of the failing callback must reach exactly the caller that "
+                f"was processing the event (sender {by}); senders that raised: "
+                f"{[(t, type(e).__name__) for t, e in errors]}")
+    names_b = [r.cid[1] for r in fb]
+    if names_b and names_b != PATTERN_A:
+        return f"F3 the other event ran {names_b}"
+    if fb and fa:
+        if not (fb[-1].seq_end < fa[0].seq_begin or fa[-1].seq_end < fb[0].seq_begin):
+            return "O1 overlap: the callbacks of the two events interleave"
+    fault_t = fa[-1].seq_begin
+    cb = next(c for c in calls if c["tag"] == "S1.0")
+    ca = next(c for c in calls if c["sender"] == by) if by is not None else None
+    qlen, locked = queue_len(sm), lock_held(sm)
+    if locked:
+        return "O4 stranded: the lock is still held after all senders returned"
+    if qlen:
+        # (the failing caller's own call never "returns": it raises)
+        ca_ret = float("inf") if (ca is None or ca["ret"] is None) else ca["ret"]
+        inflight = cb["ret"] is not None and fault_t < cb["ret"] < ca_ret and by == 0 and not fb
+        if inflight:
+            return ("O4K stranded: the other sender's event was enqueued after the failing "
+                    "drainer had emptied the queue and before it released the lock; the sender "
+                    "gave up (lock busy), nobody processes the event until the next send")
+        return f"O4 stranded: queue length {qlen} after all senders returned"
+    # (an event of the other sender that was never processed was dropped with the queue: it had
+    # been enqueued before the failing drainer emptied it - the logical clock of the callbacks
+    # cannot place that moment more precisely, so no further condition is put on it)
+    if sm.current_state_value != "s0":
+        return f"F5 final state {sm.current_state_value}, expected s0 (the failing event's source)"
+    return None, ("fault", bool(fb), by)
 
 
 def check(env, sm, sender_tags, errors, deadlock, init_value="s0"):
@@ -396,8 +456,10 @@ def run_threads(ch, events, nested, files, only_lines=None, stateful=False):
     calls = []
     with tsched.patched_lock():
         anon = nested == "anon"
+        fault = nested == "fault"
         impl = Impl(built, Cfg("sync", True, gated, "direct"),
-                    plan=Plan(rules=RULE if nested is True else {}))
+                    plan=Plan(rules=RULE if nested is True else {},
+                              faults=fault_plan(built) if fault else {}))
         env = impl.env
         env.vals = {"g1": True, "v1": True}
         env.flat_mode = True
@@ -463,9 +525,11 @@ def run_threads(ch, events, nested, files, only_lines=None, stateful=False):
             if c["ret"] is None:
                 c["ret"] = float("inf")
         r = check_gated(env, sm, calls, s.errors, s.deadlock)
+    elif fault:
+        r = check_fault(env, sm, calls, s.errors, s.deadlock, idents)
     else:
         r = check(env, sm, tags, s.errors, s.deadlock)
-    if isinstance(r, tuple) and r[0] is None and not anon and not gated:
+    if isinstance(r, tuple) and r[0] is None and not anon and not gated and not fault:
         # (on the gated machine an ignored event leaves no callback behind: which event a call
         # processed first cannot be observed there)
         r8 = check_results(env, calls, idents)
@@ -593,7 +657,10 @@ def explore_variant(res, half, vi, variant, tier, roots=None, root_run=True):
 
 
 def _cat(msg):
-    for key in ("NONDETERMINISTIC", "O1", "O2", "O3", "O4", "O5", "O7", "deadlock", "hang", "raised",
+    if "O4K" in msg:
+        return "event-enqueued-while-failing-drainer-holds-the-lock-is-stranded"
+    for key in ("NONDETERMINISTIC", "O1", "O2", "O3", "O4", "O5", "O7", "O8", "F1", "F2", "F3", "F4",
+                "F5", "deadlock", "hang", "raised",
                 "never finished", "suspended", "pending"):
         if key in msg:
             return key
